@@ -604,3 +604,45 @@ Example C05_F54_reserved_word_field :
   | _ => False
   end.
 Proof. vm_compute. repeat split. Qed.
+
+(* ---- ... and for the COMPLETE operator table and built-in set (EvalAll.v: every built-in of the
+   regenerated table, `^` through the oracle's powf; libm, Unicode tables, clock and lambda text are
+   fields of the oracle record o), for every oracle: AllLf.v, from FullClosed.v / FullAgree.v generalised
+   to an arbitrary value predicate (AllGenClosed.v) ---- *)
+Require Import Blots.EvalFull Blots.EvalAll Blots.proofs.AllLf.
+Theorem C05_impl_respecting_all : forall o, impl_lf_respecting (binop_all o) (builtin_all o).
+Proof. exact impl_lf_respecting_all. Qed.
+Check C05_impl_respecting_all : forall o, impl_lf_respecting (binop_all o) (builtin_all o).
+Print Assumptions C05_impl_respecting_all.
+
+Theorem C05_emit_equiv_first_order_evaluator_all :
+  forall o release nanfix d fr fr' this this' id id' params body sv args st,
+    first_order_body body = true ->
+    free_vars body (map arg_name params ++ map fst sv) = [] ->
+    forallb (fun kv => emittable_gen (snd kv)) sv = true ->
+    (forall x, special_name x = true -> rec_get sv x = None) ->
+    (forall x, In x (map arg_name params) -> rec_get sv x = None) ->
+    rec_get sv "inputs"%string = None ->
+    (forall n, lam_name st id = Some n -> rec_get sv n = None) ->
+    lfs args = true ->
+    AD release (binop_all o) (builtin_all o) d fr this (VLam id params body sv) args st =
+    AD release (binop_all o) (builtin_all o) d fr' this'
+       (VLam id' params (subst true (scope_map nanfix true sv) body) []) args st.
+Proof.
+  intros o release.
+  exact (emit_equiv_first_order release (binop_all o) (builtin_all o) (impl_lf_respecting_all o)).
+Qed.
+Check C05_emit_equiv_first_order_evaluator_all :
+  forall o release nanfix d fr fr' this this' id id' params body sv args st,
+    first_order_body body = true ->
+    free_vars body (map arg_name params ++ map fst sv) = [] ->
+    forallb (fun kv => emittable_gen (snd kv)) sv = true ->
+    (forall x, special_name x = true -> rec_get sv x = None) ->
+    (forall x, In x (map arg_name params) -> rec_get sv x = None) ->
+    rec_get sv "inputs"%string = None ->
+    (forall n, lam_name st id = Some n -> rec_get sv n = None) ->
+    lfs args = true ->
+    AD release (binop_all o) (builtin_all o) d fr this (VLam id params body sv) args st =
+    AD release (binop_all o) (builtin_all o) d fr' this'
+       (VLam id' params (subst true (scope_map nanfix true sv) body) []) args st.
+Print Assumptions C05_emit_equiv_first_order_evaluator_all.
